@@ -301,6 +301,31 @@ fn rec<F: Fn(Item) + Sync>(buf: &mut String, remaining: usize, side: &[(String, 
     }
 }
 
+/// (b') operand shapes: `lda ` followed by every string of length 1..=n over the tokens an operand is
+/// made of (parentheses, index suffixes inside and outside them, values, blanks, a comment).
+pub const OPERAND_TOKENS: [&str; 10] = ["(", ")", ",x", ",y", "$10", "#", "a", ",", " ", "/* c */"];
+
+pub fn operand_strings<F: Fn(Item) + Sync>(n: usize, f: F) {
+    let side: Vec<(String, String)> = vec![];
+    let k = OPERAND_TOKENS.len();
+    (0..k).into_par_iter().for_each(|a| {
+        fn rec2<F: Fn(Item) + Sync>(buf: &mut String, remaining: usize, side: &[(String, String)], f: &F) {
+            f(Item { origin: "operand-shapes", text: buf, side });
+            if remaining == 0 {
+                return;
+            }
+            for t in OPERAND_TOKENS.iter() {
+                let l = buf.len();
+                buf.push_str(t);
+                rec2(buf, remaining - 1, side, f);
+                buf.truncate(l);
+            }
+        }
+        let mut buf = format!("lda {}", OPERAND_TOKENS[a]);
+        rec2(&mut buf, n - 1, &side, &f);
+    });
+}
+
 /// (c) prefix(i) + suffix(j) of each example, cut at line starts; `step` thins i and j.
 pub fn splices<F: Fn(Item) + Sync>(entries: &[Entry], step: usize, f: F) {
     let mut work = vec![];
